@@ -3,14 +3,17 @@
    op ::= (new) | (add <obj>) | (set (i g) <obj>) | (del (i g)) | (rmannot (i g)) | (prune)
         | (delpages n...) | (renumber) | (compress) | (decompress) | (ccs (i g) xC) | (cpc (i g) xC) | (apc (i g) xC)
         | (atpc (i g) (op xOP operand...)...) | (gocr (i g)) | (addx (i g) xNAME (i g)) | (addgs (i g) xNAME (i g))
-        | (content (i g))
-   Result: (trace (<out> <doc-or-=>)...) -- one entry per operation: what the call returned and the
-   canonical dump of the document after it ("=" when the dump equals the previous one).
+        | (content (i g)) | (save table|stream)
+        | (bm (t cp...) fmt (c xR xG xB) (i g) parent|none) | (outline)
+   Result: (trace (<out> <dump-or-=>)...) -- one entry per operation: what the call returned and the
+   canonical dump of the Document after it ("=" when the dump equals the previous one);
+   dump ::= <doc> while no bookmark was ever added, else (st <doc> (bm max_bookmark_id (roots ...) (tbl (id (i g) (children...))...)))
    out ::= unit | (id (i g)) | (obj none) | (obj <obj>) | (ids (i g)...) | ok | err | panic | fuel | hang
-         | (okobj <obj>) | (bytes none) | (bytes xHEX)
+         | (okobj <obj>) | (bytes none) | (bytes xHEX) | (num n) | (root none) | (root (i g))
    The oracle table is the one of RunC09.v (tags f / l0 / l1 / z). *)
 From LV Require Import Base.Bytes Base.Sx Model.Obj Model.DocQ Model.PageTree Model.Traverse Model.Edit
   Model.Writer Run.RunC09 Run.RunC14.
+From LV Require Model.Outline.
 
 Definition oracles_of (tbl : orc) : oracles :=
   {| Edit.o_inflate := RunC09.o_inflate tbl; Edit.o_lzw := RunC09.o_lzw tbl; Edit.o_deflate := RunC09.o_deflate tbl |}.
@@ -71,7 +74,30 @@ Definition eop_of_sx (x : sx) : option op :=
       end
     else if bytes_eqb tag (bs "content") then
       match args with [i] => option_map GetPageContent (oid_of_sx i) | _ => None end
+    else if bytes_eqb tag (bs "save") then
+      match args with
+      | [m] => if is_id m "table" then Some (Save false) else if is_id m "stream" then Some (Save true) else None
+      | _ => None
+      end
     else None
+  | _ => None
+  end.
+
+Definition sop_of_sx (x : sx) : option sop :=
+  match x with
+  | SL (SA tag :: args) =>
+    if bytes_eqb tag (bs "bm") then
+      match args with
+      | [SL (_ :: cs); f; SL [_; c0; c1; c2]; pg; par] =>
+        match omap as_N cs, as_N f, as_bytes c0, as_bytes c1, as_bytes c2, oid_of_sx pg,
+              (if is_id par "none" then Some None else option_map Some (as_N par)) with
+        | Some t, Some f, Some c0, Some c1, Some c2, Some pg, Some par => Some (SAddBookmark t f (c0, c1, c2) pg par)
+        | _, _, _, _, _, _, _ => None
+        end
+      | _ => None
+      end
+    else if bytes_eqb tag (bs "outline") then Some SBuildOutline
+    else option_map SDoc (eop_of_sx x)
   | _ => None
   end.
 
@@ -90,14 +116,27 @@ Definition out_to_sx (o : out) : sx :=
   | OOkObj x => SL [sx_id "okobj"; obj_to_sx x]
   | OBytes None => SL [sx_id "bytes"; sx_id "none"]
   | OBytes (Some b) => SL [sx_id "bytes"; sx_bytes b]
+  | ONum n => SL [sx_id "num"; sx_N n]
+  | ORoot None => SL [sx_id "root"; sx_id "none"]
+  | ORoot (Some id) => SL [sx_id "root"; oid_to_sx id]
   end.
 
-Fixpoint trace (O : oracles) (d : doc) (prev : bytes) (ops : list op) : list sx :=
+Definition state_to_sx (s : state) : sx :=
+  match Outline.bookmark_table s with
+  | [] => doc_to_sx (Outline.base s)
+  | tbl =>
+    SL [sx_id "st"; doc_to_sx (Outline.base s);
+        SL [sx_id "bm"; sx_N (Outline.max_bookmark_id s); SL (sx_id "roots" :: map sx_N (Outline.bookmarks s));
+            SL (sx_id "tbl" :: map (fun kv => SL [sx_N (fst kv); oid_to_sx (Outline.bm_page (snd kv));
+                                                  SL (map sx_N (Outline.bm_children (snd kv)))]) tbl)]]
+  end.
+
+Fixpoint trace (O : oracles) (d : state) (prev : bytes) (ops : list sop) : list sx :=
   match ops with
   | [] => []
   | o :: ops' =>
-    let '(d', r) := step O d o in
-    let dump := doc_to_sx d' in
+    let '(d', r) := sstep O d o in
+    let dump := state_to_sx d' in
     let txt := sx_print dump in
     SL [out_to_sx r; if bytes_eqb txt prev then SA (bs "=") else dump] :: trace O d' txt ops'
   end.
@@ -106,8 +145,8 @@ Definition run (x : sx) : sx :=
   match x with
   | SL (_ :: dx :: SL (_ :: opsx) :: rest) =>
     let tbl := match rest with ox :: _ => match orc_of_sx ox with Some t => t | None => [] end | [] => [] end in
-    match doc_of_sx dx, omap eop_of_sx opsx with
-    | Some d, Some ops => SL (sx_id "trace" :: trace (oracles_of tbl) d (sx_print (doc_to_sx d)) ops)
+    match doc_of_sx dx, omap sop_of_sx opsx with
+    | Some d, Some ops => SL (sx_id "trace" :: trace (oracles_of tbl) (Outline.fresh_bdoc d) (sx_print (doc_to_sx d)) ops)
     | _, _ => sx_id "badcase"
     end
   | _ => sx_id "badcase"
